@@ -144,6 +144,23 @@ def run(chk: Check) -> None:
                    "the %s setter empties the storage object and only afterwards reads its argument: "
                    "'x.%s = x.%s' (the getter returns that very object) loses every entry"
                    % (pname, pname, pname), 3)
+    sp0 = bi.props.get("symbolic_expressions")
+    if sp0 is not None and sp0.setter is not None:
+        s0 = sp0.setter
+        me0 = s0.self_name
+        cfg0 = CFG(s0.node)
+        clears = cfg0.nodes_where(lambda n: isinstance(n, ast.Call) and attr_path(n.func) in (
+            (me0, "_symbolic_expressions", "clear"),)) | cfg0.nodes_where(
+            lambda n: isinstance(n, ast.Assign) and attr_path(n.targets[0]) == (me0, "_symbolic_expressions"))
+        fills = cfg0.nodes_where(lambda n: isinstance(n, ast.Call) and attr_path(n.func) in (
+            (me0, "_symbolic_expressions", "update"),)) | cfg0.nodes_where(
+            lambda n: isinstance(n, ast.Assign) and attr_path(n.targets[0]) == (me0, "_symbolic_expressions")
+            and isinstance(n.value, ast.Call) and len(n.value.args) >= 2)
+        ok0 = bool(clears) and bool(fills) and cfg0.path_avoiding(cfg0.entry, cfg0.exit, clears) is None \
+            and cfg0.path_avoiding(cfg0.entry, cfg0.exit, fills) is None
+        chk.ob("R13.2", "ByteInterval.symbolic_expressions:assignment-replaces", ok0, s0.loc(),
+               "assigning a whole mapping must drop the old entries and store the new ones on every "
+               "path (clear/rebind, then update)", 2)
     sp = bi.props.get("symbolic_expressions")
     chk.ob("R13.2", "ByteInterval.symbolic_expressions:assignable", sp is not None and sp.setter is not None,
            bi.loc(), "whole-mapping assignment of symbolic_expressions must be supported", 1)
@@ -159,6 +176,8 @@ def run(chk: Check) -> None:
         chk.saw(f)
         _range_lookup(chk, f, key, by_addr)
 
+    from .bounds import range_helpers
+    range_helpers(chk, "R13.3")
     # R13.4 ----------------------------------------------------------------
     # section scope goes through byte_intervals_on: the lazy section index must be sound
     from .c12 import _capture, _get, _ownership
